@@ -40,10 +40,11 @@ LEVEL_NOTE = ("PARTIAL: symbolic cryptography.  The hash is assumed injective, s
               "message parsing, _activate_outbound and NEWKEYS sequencing are not modelled (the oracle checks that a "
               "client that must abort never activates its outbound keys).  A swapped host key together with a fresh "
               "signature by that key's owner is accepted by design (host key pinning is HostKeys' job, C02/C03).  "
-              "KNOWN FINDINGS on the current tree (fix proposed in fixes/C06-reject-trailing-signature-data.diff, modelled by the "
-              "generated flag verify_canonical_guard): bytes appended after the two strings of the signature blob (all key "
-              "types) and after (r, s) inside an ECDSA signature are ignored, so such an altered reply is accepted -- the "
-              "verified content is unchanged.  Key derivation (_compute_key) is C04's model; here only the oracle compares "
+              "Integers the protocol hashes / verifies by VALUE (mpint f, ECDSA r and s) are accepted in non-minimal "
+              "encodings (redundant leading zero), as RFC 4253 section 8 hashes the canonical mpint; the oracle then requires equal K and H.  "
+              "Repaired in /repo after this check found it (fix: reject trailing data in host key signature blobs and ECDSA "
+              "(r, s) strings): trailing bytes after the signature blob / after (r, s) used to be ignored; the generated flag "
+              "verify_canonical_guard records the strict-blob test.  Key derivation (_compute_key) is C04's model; here only the oracle compares "
               "installed keys with the RFC derivation under session id = first H.  "
               "Trusted: Coq kernel + vm_compute, gen/c06.py (fail-closed AST translator), this harness.")
 TECHNIQUE = ("Coq proof over AST-translated transcript layouts (injectivity from C39, symbolic signatures) + vm_compute "
@@ -257,7 +258,38 @@ def merge(fam, crec, srec):
 FAULTS = ["hostkey-swap", "hostkey-other-type", "hostkey-bitflip", "pub-changed", "sig-bitflip",
           "sig-other-key", "sig-other-data", "sig-empty",
           # same value, different bytes: junk / padding around the encoded fields
-          "sig-inner-prepend", "sig-inner-append", "sig-blob-append", "hostkey-append", "hostkey-field-pad"]
+          "sig-inner-prepend", "sig-inner-append", "sig-blob-append", "hostkey-append", "hostkey-field-pad",
+          # another ENCODING of the same value: compressed EC point, X25519 u with the ignored top bit set, mpint f
+          # with a redundant leading zero; algorithm / key type names in another letter case; ECDSA r re-encoded
+          "pub-reencoded", "sig-alg-case", "hostkey-name-case", "sig-mpint-pad"]
+
+
+def value_level(fault, fam):
+    """Faults that re-encode an INTEGER the protocol hashes / verifies by value (mpint f of the DH families, ECDSA
+    r): the client may accept them, but then both peers must still hold the same K and H."""
+    return fault == "sig-mpint-pad" or (fault == "pub-reencoded" and fam in (0, 1))
+
+
+def fault_applies(fault, alg):
+    return fault != "sig-mpint-pad" or alg.startswith("ecdsa-")
+
+
+def reencode_pub(fam, pub, rng):
+    if fam in (0, 1):
+        return b"\x00" * rng.randrange(1, 3) + pub
+    if fam == 2:
+        if pub[:1] != b"\x04" or len(pub) % 2 != 1:
+            return pub
+        n = (len(pub) - 1) // 2
+        return bytes([2 + (pub[-1] & 1)]) + pub[1:1 + n]
+    b = bytearray(pub)
+    b[-1] |= 0x80          # RFC 7748: the most significant bit of the u-coordinate is ignored
+    return bytes(b)
+
+
+def swapcase_first_field(blob):
+    a, b, rest = split3(blob)
+    return rfc_string(a.swapcase()) + rfc_string(b) + rest
 # faults whose acceptance on the current tree is a registered finding (strict parsing is missing, the
 # verified content is unchanged); any other accepted fault is a violation
 KNOWN_KEYS = {"sig-blob-append": "sig-trailing-data-accepted"}
@@ -362,6 +394,17 @@ def tamper(fault, fam, cls, payload, alg, keys, get_H, rng):
         ks = ks + rng.choice([b"\x00", b"\x00\x00\x00\x00", rfc_string(b"junk")])
     elif fault == "hostkey-field-pad":
         ks = last_field_pad(ks)
+    elif fault == "pub-reencoded":
+        pub = reencode_pub(fam, pub, rng)
+    elif fault == "sig-alg-case":
+        sig = swapcase_first_field(sig)
+    elif fault == "hostkey-name-case":
+        ks = swapcase_first_field(ks)
+    elif fault == "sig-mpint-pad":
+        if alg.startswith("ecdsa-"):
+            a, inner, rest = split3(sig)
+            r, s_, rest2 = split3(inner)
+            sig = rfc_string(a) + rfc_string(rfc_string(b"\x00" + r) + rfc_string(s_) + rest2) + rest
     else:
         raise ValueError(fault)
     return join_reply(ks, pub, sig)
@@ -534,6 +577,17 @@ def check_abort(ctx, where, name, fault, aborted, activated, exc, case):
                  observed="no exception" if exc is None else "%s: %s" % (type(exc).__name__, str(exc)[:100]))
 
 
+def check_tampered(ctx, where, name, fam, fault, aborted, activated, exc, case, hk_client, hk_server):
+    """hk_* = (K, H) each side holds for the tampered exchange (None when it did not get that far)."""
+    if value_level(fault, fam) and not aborted:
+        if hk_client is None or hk_client != hk_server:
+            ctx.fail("reencoded-value-diverges:" + fault,
+                     "%s: client accepted a re-encoded integer (%s, kex %s) but the peers do not hold the same K and H" % (
+                         where, fault, name), case=case, expected=hk_server, observed=hk_client)
+        return
+    check_abort(ctx, where, name, fault, aborted, activated, exc, case)
+
+
 def run_direct(ctx, keys, model_cases, dh_cases):
     rng = ctx.rng
     T = ctx.thorough
@@ -585,6 +639,8 @@ def run_direct(ctx, keys, model_cases, dh_cases):
             plan = [(f, 1 + (ei + j) % 3) for j, f in enumerate(FAULTS)]
         for fault, nex in plan:
             alg = algs[(ei + 2 * FAULTS.index(fault) + nex) % len(algs)] if not T else rng.choice(algs)
+            if not fault_applies(fault, alg):
+                alg = [a for a in algs if a.startswith("ecdsa-")][(ei + nex) % 3]
             case = {"mode": "direct", "kex": name, "hostkey": alg, "old_style": False, "fault": fault, "exchange": nex}
             o = direct_exchange(name, cls, fam, alg, keys, rng, fault, exchanges=nex)
             ctx.count(("direct-fault", name, alg, fault, nex), nontrivial=o["fault_applied"],
@@ -599,8 +655,9 @@ def run_direct(ctx, keys, model_cases, dh_cases):
                          case=case, expected=o["H_list"][0], observed=o["client"].session_id)
             if not o["fault_applied"]:
                 continue
-            check_abort(ctx, "direct drive", name, fault, o["exc"] is not None,
-                        o["activated_after"] > o["activated_before"], o["exc"], case)
+            check_tampered(ctx, "direct drive", name, fam, fault, o["exc"] is not None,
+                           o["activated_after"] > o["activated_before"], o["exc"], case,
+                           (o["client"].K, o["client"].H), (o["server"].K, o["server"].H))
     return n
 
 
@@ -902,6 +959,10 @@ def run_loopback(ctx, keys, model_cases, latch_cases):
                 tcombos.append((light[(j * len(algs) + a) % len(light)], alg, fault, 1 + (j + a) % 3))
         for j in range(4):
             tcombos.append(("diffie-hellman-group16-sha512", algs[j % len(algs)], FAULTS[(3 * j + 1) % len(FAULTS)], 1 + j % 2))
+    # the public value's encoding is a per-kex matter: every kex (not only the one the rotation above picked)
+    for i, nm in enumerate(names):
+        tcombos.append((nm, algs[(2 * i + 1) % len(algs)], "pub-reencoded", 1 + i % 2))
+    tcombos = [c for c in tcombos if fault_applies(c[2], c[1])]
     for nm, alg, fault, at in tcombos:
         cls, fam = eng[nm]
         case = {"mode": "handshake", "kex": nm, "hostkey": alg, "rekeys": at - 1, "fault": fault, "exchange": at}
@@ -920,8 +981,11 @@ def run_loopback(ctx, keys, model_cases, latch_cases):
             ctx.notes.append("tamper run %r: the reply was not seen / not changed" % (case,))
             continue
         c = o["client"]
-        check_abort(ctx, "handshake", nm, fault, o["exc"] is not None and not c["active"],
-                    c["activate"] > o["activate_before"] or c["newkeys"] > o["newkeys_before"], o["exc"], case)
+        sv = o["server"]
+        hkc = (c["kex"][at - 1]["K"], c["kex"][at - 1]["H"]) if len(c["kex"]) >= at else None
+        hks = (sv["kex"][at - 1]["K"], sv["kex"][at - 1]["H"]) if len(sv["kex"]) >= at else None
+        check_tampered(ctx, "handshake", nm, fam, fault, o["exc"] is not None and not c["active"],
+                       c["activate"] > o["activate_before"] or c["newkeys"] > o["newkeys_before"], o["exc"], case, hkc, hks)
         if at == 1 and o["exc"] is not None and c["remote_key"] is not None:
             ctx.fail("host-key-stored-on-abort:" + fault, "client stored a host key although it refused the reply", case=case)
     return n
@@ -1086,7 +1150,10 @@ def run(ctx):
                 "another key of the same / another type, bit flipped in the key blob, f / Q_S replaced by another valid "
                 "value, signature bit flipped / made by another key over the same H / made by the right key over other "
                 "data / emptied; junk or zero padding prepended / appended to the inner signature string, appended to the "
-                "signature blob or the key blob, a key field zero-padded; every fault x every host key algorithm) -- on the initial exchange or on the 2nd / 3rd exchange (re-key) of the same transports; (d) "
+                "signature blob or the key blob, a key field zero-padded; the SAME value in another encoding: Q_S as a "
+                "compressed EC point, X25519 u with the ignored top bit set, mpint f / ECDSA r with a redundant leading zero "
+                "(integers hashed by value: acceptance allowed only with equal K and H on both peers), algorithm / key type "
+                "names in another letter case; every fault x every host key algorithm) -- on the initial exchange or on the 2nd / 3rd exchange (re-key) of the same transports; (d) "
                 "Transport.connect(hostkey=pinned, password | pkey) towards a server holding the pinned key / the same key "
                 "re-loaded / another key of the same type / a key of another type, per host key type: a differing key must "
                 "raise before the server sees any authentication request.  "
@@ -1150,8 +1217,9 @@ def replay(ctx, rep):
                                  stub_rec(o["server"], o["ks"], fam, True, keys[alg][0]),
                                  hk.asbytes() if hk is not None else None, case, mc)
                 elif o["fault_applied"]:
-                    check_abort(ctx, "direct drive", case["kex"], fault, o["exc"] is not None,
-                                o["activated_after"] > o["activated_before"], o["exc"], case)
+                    check_tampered(ctx, "direct drive", case["kex"], fam, fault, o["exc"] is not None,
+                                   o["activated_after"] > o["activated_before"], o["exc"], case,
+                                   (o["client"].K, o["client"].H), (o["server"].K, o["server"].H))
             else:
                 o = do_loopback(case["kex"], cls, fam, alg, keys, ctx.rng, int(case.get("rekeys") or 0), fault,
                                 int(case.get("exchange") or 1), tuple(case.get("banners") or (None, None)))
@@ -1161,6 +1229,10 @@ def replay(ctx, rep):
                     check_loop_honest(ctx, case["kex"], cls, fam, alg, int(case.get("rekeys") or 0), o, case, mc, lc)
                 elif o.get("changed"):
                     c = o["client"]
-                    check_abort(ctx, "handshake", case["kex"], fault, o["exc"] is not None and not c["active"],
-                                c["activate"] > o["activate_before"] or c["newkeys"] > o["newkeys_before"], o["exc"], case)
+                    at = int(case.get("exchange") or 1)
+                    sv = o["server"]
+                    check_tampered(ctx, "handshake", case["kex"], fam, fault, o["exc"] is not None and not c["active"],
+                                   c["activate"] > o["activate_before"] or c["newkeys"] > o["newkeys_before"], o["exc"], case,
+                                   (c["kex"][at - 1]["K"], c["kex"][at - 1]["H"]) if len(c["kex"]) >= at else None,
+                                   (sv["kex"][at - 1]["K"], sv["kex"][at - 1]["H"]) if len(sv["kex"]) >= at else None)
     ctx.log("replayed %r" % (case,))
